@@ -19,10 +19,16 @@ using namespace vf;
 static const unsigned maxLog = 57;
 static const uint64_t FULL = 0xF0F1F2F3F4F5F6F7ull;	// never returned: the full getter sets a flag instead
 
-// ---------- memory managers: the pointer width decides hashCount of LimP4 (4, 6 or 8 bytes of metadata) ----------
+// ---------- memory managers: the pointer width (global macro, see the note below) decides hashCount of LimP4 (4, 6 or 8 bytes of metadata) ----------
 
+// NOTE (observation O3, see common/verif_ptrbits.h): momo ignores a manager's own ptrUsefulBitCount today (MemManager.h 376-380), so
+// without the global macro every driver below - whatever its label says - runs with 8-byte pointer states and hashCount 4. hashCount 6 and 8
+// are covered by the registry's builds of this file with -DMOMO_MEM_MANAGER_PTR_USEFUL_BIT_COUNT=48 (every driver: hashCount 6) and =32
+// (every driver: hashCount 8, all managers on the arena); the counters cfg.hash_count_of_* record what a build really exercised.
+#if !(defined(MOMO_MEM_MANAGER_PTR_USEFUL_BIT_COUNT) && MOMO_MEM_MANAGER_PTR_USEFUL_BIT_COUNT <= 32)
 struct MM64 : public momo::MemManagerDefault { };
 struct MM48 : public momo::MemManagerDefault { static const size_t ptrUsefulBitCount = 48; };
+#endif
 
 // 32-bit pointers: memory comes from an arena mapped below 4 GB
 struct Arena32 {
@@ -58,6 +64,10 @@ public:
 	void* Allocate(size_t size) { return g_arena.alloc(size); }
 	void Deallocate(void* ptr, size_t size) noexcept { g_arena.free(ptr, size); }
 };
+#if defined(MOMO_MEM_MANAGER_PTR_USEFUL_BIT_COUNT) && MOMO_MEM_MANAGER_PTR_USEFUL_BIT_COUNT <= 32
+struct MM64 : public MM32 { };
+struct MM48 : public MM32 { };
+#endif
 
 // ---------- items: carry their hash code so the harness can check which element sits where ----------
 
@@ -497,6 +507,13 @@ int main(int argc, char** argv)
 	unsigned rh = c.thorough ? 24 : 6;
 	bool have32 = g_arena.ok();
 	c.stats.count("cfg.arena32_available", have32 ? 1 : 0);
+	// which metadata widths this build really exercises (labels of the suites say what was intended)
+	c.stats.count(fmt("cfg.hash_count_of_MM64_%zu", (size_t)P4Drv<Item8, MM64, 4>::hc));
+	c.stats.count(fmt("cfg.hash_count_of_MM48_%zu", (size_t)P4Drv<Item8, MM48, 4>::hc));
+	c.stats.count(fmt("cfg.hash_count_of_MM32_%zu", (size_t)P4Drv<Item8, MM32, 4>::hc));
+#if defined(MOMO_MEM_MANAGER_PTR_USEFUL_BIT_COUNT) && MOMO_MEM_MANAGER_PTR_USEFUL_BIT_COUNT <= 32
+	if (!have32) { c.fail("harness: no MAP_32BIT arena in a 32-bit-pointer build"); return c.finish(); }
+#endif
 	{
 		Suite s(c, "fn", "model hashmeta");
 		sweepP4<P4Drv<Item8, MM64, 4>>(c, rng, s, "LimP4<4>/hc4", rh);
